@@ -15,6 +15,9 @@ mod gen;
 mod c01;
 mod c02;
 mod c03;
+mod c04;
+mod c05;
+mod c06;
 mod c07;
 mod c08;
 mod c19;
@@ -50,6 +53,9 @@ registry! {
     "C01" => c01::C01,
     "C02" => c02::C02,
     "C03" => c03::C03,
+    "C04" => c04::C04,
+    "C05" => c05::C05,
+    "C06" => c06::C06,
     "C07" => c07::C07,
     "C08" => c08::C08,
 }
